@@ -54,12 +54,43 @@ const (
 	BSkipNow
 	BSkipf
 	BCleanupPass // registers a harmless cleanup
+	// C10 recipes (performed by c10Perform, which logs monitor events)
+	BRcpNone
+	BRcp1
+	BRcp3
+	BRcpNested
+	BRcpPanicMid
+	BRcpErrorfMid
+	BRcpCtxInCleanup
+	BRcpThenFatal
+	BRcpThenSkip
+	BRcpThenPanic
+	BRcpThenErrorf
+	BRcpCustom
+	BRcpCustomSkip
+	BRcpGoroutineCleanup
+	BRcpCustomFatal
+	BRcpCustomPanic
+	BRcpCleanupSkips
+	BRcpSkipWithCleanupErrorf
+	// more per-case behaviours (appended to keep the numbering of the others stable)
+	BCleanupErrorfSkip // registers a cleanup that Errorfs, then skips
+	BErrorfReject      // Errorf, then a draw that is rejected as invalid data (not through Skip)
+	BCleanupSkip       // registers a cleanup that calls Skip
+	BErrorEmpty        // t.Error() with no arguments
+	BErrorfEmpty       // t.Errorf("")
+	BFailNowD          // FailNow at another call stack than BFailNowC: same message, different site
+	BPanicDivA         // integer divide by zero at site A
+	BPanicDivB         // integer divide by zero at site B (same message, different site)
 	numBeh
 )
 
 var behNames = [...]string{"pass", "Skip", "Errorf", "Errorf;Skip", "Fail", "Fatalf@A", "Fatalf@B", "FailNow@C", "Fatal", "Error",
 	"panic(string)", "panic(error)", "panic(struct)", "panic(nil)", "nil-deref", "index-out-of-range",
-	"Cleanup(Errorf)", "Cleanup(panic)", "Cleanup(Fatalf)", "Cleanup(Cleanup(Errorf))", "go-Errorf", "go-Fail", "SkipNow", "Skipf", "Cleanup(pass)"}
+	"Cleanup(Errorf)", "Cleanup(panic)", "Cleanup(Fatalf)", "Cleanup(Cleanup(Errorf))", "go-Errorf", "go-Fail", "SkipNow", "Skipf", "Cleanup(pass)",
+	"rcp:none", "rcp:1-cleanup", "rcp:3-cleanups", "rcp:nested-registration", "rcp:middle-cleanup-panics", "rcp:middle-cleanup-Errorfs", "rcp:Context-in-cleanup",
+	"rcp:cleanups-then-Fatalf", "rcp:cleanups-then-Skip", "rcp:cleanups-then-panic", "rcp:cleanups-then-Errorf", "rcp:Custom-with-cleanups", "rcp:Custom-skips-once", "rcp:cleanup-registered-from-goroutine", "rcp:Custom-registers-then-Fatalf", "rcp:Custom-registers-then-panics", "rcp:last-cleanup-skips", "rcp:Skip-with-Cleanup(Errorf)",
+	"Cleanup(Errorf);Skip", "Errorf;rejected-draw", "Cleanup(Skip)", "Error()", `Errorf("")`, "FailNow@D", "div-by-zero@A", "div-by-zero@B"}
 
 func (b Beh) String() string { return behNames[b] }
 
@@ -68,13 +99,24 @@ func (b Beh) Falsifies() bool {
 	switch b {
 	case BPass, BSkip, BSkipNow, BSkipf, BCleanupPass:
 		return false
+	case BRcpPanicMid, BRcpErrorfMid, BRcpThenFatal, BRcpThenPanic, BRcpThenErrorf, BRcpCustomFatal, BRcpCustomPanic, BRcpSkipWithCleanupErrorf:
+		return true
+	case BCleanupSkip:
+		return false
+	}
+	if b >= BRcpNone && b < BCleanupErrorfSkip {
+		return false
 	}
 	return true
 }
 
 // Skips: does b (also) skip?
 func (b Beh) Skips() bool {
-	return b == BSkip || b == BErrorfSkip || b == BSkipNow || b == BSkipf
+	switch b {
+	case BSkip, BErrorfSkip, BSkipNow, BSkipf, BRcpThenSkip, BCleanupErrorfSkip, BCleanupSkip, BRcpCleanupSkips, BRcpSkipWithCleanupErrorf:
+		return true
+	}
+	return false
 }
 
 // Fatal: does b stop the invocation at a definite call stack (a "site")?
@@ -86,6 +128,12 @@ func (b Beh) Site() string {
 		return "B"
 	case BFailNowC:
 		return "C"
+	case BFailNowD:
+		return "D"
+	case BPanicDivA:
+		return "DA"
+	case BPanicDivB:
+		return "DB"
 	case BFatal:
 		return "F"
 	case BPanicStr, BPanicErr, BPanicStruct, BPanicNil:
@@ -98,7 +146,7 @@ func (b Beh) Site() string {
 		return "CP"
 	case BCleanupFatal:
 		return "CF"
-	case BErrorf, BFail, BError, BErrorfSkip, BCleanupErrorf, BCleanupCleanupErrorf, BGoErrorf, BGoFail:
+	case BErrorf, BFail, BError, BErrorfSkip, BCleanupErrorf, BCleanupCleanupErrorf, BGoErrorf, BGoFail, BCleanupErrorfSkip, BErrorfReject, BErrorEmpty, BErrorfEmpty:
 		return "nonfatal"
 	}
 	return ""
@@ -118,6 +166,15 @@ func siteB(t *rapid.T, msg string) { t.Fatalf("site B: %s", msg) }
 
 //go:noinline
 func siteC(t *rapid.T) { t.FailNow() }
+
+//go:noinline
+func siteD(t *rapid.T) { t.FailNow() }
+
+//go:noinline
+func siteDivA(z int) int { return 1 / z }
+
+//go:noinline
+func siteDivB(z int) int { return 2 / z }
 
 //go:noinline
 func sitePanic(v any) { panic(v) }
@@ -193,10 +250,30 @@ func Perform(t *rapid.T, b Beh, msg string) {
 		wg.Add(1)
 		go func() { defer wg.Done(); t.Fail() }()
 		wg.Wait()
+	case BFailNowD:
+		siteD(t)
+	case BPanicDivA:
+		siteDivA(len(msg) - len(msg))
+	case BPanicDivB:
+		siteDivB(len(msg) - len(msg))
+	case BCleanupErrorfSkip:
+		t.Cleanup(func() { t.Errorf("nonfatal in cleanup: %s", msg) })
+		t.Skip("skip with failing cleanup " + msg)
+	case BErrorfReject:
+		t.Errorf("nonfatal: %s", msg)
+		rejectingGen.Draw(t, "never")
+	case BCleanupSkip:
+		t.Cleanup(func() { t.Skip("skip from cleanup " + msg) })
+	case BErrorEmpty:
+		t.Error()
+	case BErrorfEmpty:
+		t.Errorf("")
 	default:
 		panic("harness: unknown behaviour")
 	}
 }
+
+var rejectingGen = rapid.Int8().Filter(func(int8) bool { return false })
 
 // Decision is one decision point reached during an invocation.
 type Decision struct {
